@@ -7,6 +7,7 @@ import EaselModel.Containers.RedBlackLemmas
 import EaselModel.Containers.RedBlackPtrLemmas
 import EaselModel.Containers.StackLemmas
 import EaselModel.Containers.StackHistory
+import EaselModel.Containers.StackThreadsLemmas
 import EaselModel.Containers.QuicksortLemmas
 import EaselModel.Containers.AllocBounds
 import EaselModel.Containers.Extras
@@ -451,6 +452,66 @@ example : (discardSelected ({ data := #[1, 2, 3, 4, 5], nalloc := 128 } : Stack.
     = some #[1, 3, 5] := by decide
 example : (pushAll (create : Stack.Stack Nat) [1, 2, 3]).map popAll = some [3, 2, 1] := by decide
 end StackS
+
+/-! ## Stacks used for communication between threads (`esl_stack_UseMutex`, `esl_stack_UseCond`, `esl_stack_ReleaseCond`)
+
+`StackThreads`: an interleaving transition system. Threads run programs of `Push x` / `Pop` / "pop until eslEOD" /
+`ReleaseCond`; the scheduler picks `acquire t` (the thread gets the mutex), `body t` (it runs its critical section up to the
+`pthread_mutex_unlock` — or up to the `pthread_cond_wait` of a `Pop` that finds the stack empty while `do_cond` is set, which
+gives the mutex up and sleeps), `wake t` (a sleeper wakes: signal, broadcast or spurious; it must re-acquire the mutex and
+re-test). The theorems quantify over EVERY schedule (`acts`), any number of threads, any programs, any starting content. -/
+section StackThreadsS
+open StackThreads
+
+/-- NO ITEM IS LOST OR DUPLICATED, whatever the interleaving of pushers and poppers: at every reachable state the starting
+    content plus everything pushed so far is (as a multiset) what is still on the stack plus everything popped so far; what
+    has been pushed plus what the programs still have to push is what the programs push in total; so once every thread has
+    finished, stack ∪ popped = start ∪ all pushes. The run never hits an out-of-bounds access (`Stack.Inv` is kept). -/
+theorem stack_threads_conservation {α : Type} (s : Stack.Stack α) (hi : Stack.Inv s) (progs : List (List (TOp α)))
+    (acts : List Act) (st' : TS α) (h : runSched (initial s progs) acts = some st') :
+    (s.data.toList ++ st'.pushed).Perm (st'.stack.data.toList ++ st'.popped) ∧
+    (st'.pushed ++ pending st'.threads).Perm (progs.flatMap pushesOf) ∧ Stack.Inv st'.stack ∧
+    (finished st' → (st'.stack.data.toList ++ st'.popped).Perm (s.data.toList ++ progs.flatMap pushesOf)) := by
+  have hw := runSched_wf acts (wf_initial s hi progs) h
+  refine ⟨hw.cons, hw.pend, hw.inv, fun hf => ?_⟩
+  have hp := hw.pend
+  rw [pending_finished st' hf, List.append_nil] at hp
+  exact hw.cons.symm.trans (List.Perm.append_left _ hp)
+
+/-- a `Pop` returns `eslEOD` only after `esl_stack_ReleaseCond`: while `do_cond` is still set no thread has ever been
+    answered `eslEOD` (a `Pop` on the empty stack waits instead) -/
+theorem stack_threads_eod_only_after_release {α : Type} (s : Stack.Stack α) (hi : Stack.Inv s) (progs : List (List (TOp α)))
+    (acts : List Act) (st' : TS α) (h : runSched (initial s progs) acts = some st') (hd : st'.doCond = true) :
+    ∀ th ∈ st'.threads, TOut.eod ∉ th.outs :=
+  (runSched_wf acts (wf_initial s hi progs) h).eod hd
+
+/-- mutual exclusion, and no deadlock from the locking discipline: exactly the owner of the mutex is inside a critical
+    section; and as long as some thread has calls left, some action is enabled (the holder can always finish its critical
+    section — `Push` never faults —, a free mutex can be taken, a sleeper can be woken) -/
+theorem stack_threads_mutex_progress {α : Type} (s : Stack.Stack α) (hi : Stack.Inv s) (progs : List (List (TOp α)))
+    (acts : List Act) (st' : TS α) (h : runSched (initial s progs) acts = some st') :
+    (∀ (t : Nat) (th : Thread α), st'.threads[t]? = some th → (th.phase = .holding ↔ st'.lock = some t)) ∧
+    (∀ (t : Nat) (th : Thread α), st'.threads[t]? = some th → th.prog ≠ [] → ∃ a, (fire st' a).isSome = true) := by
+  have hw := runSched_wf acts (wf_initial s hi progs) h
+  exact ⟨hw.excl, fun t th hth hp => progress st' hw t th hth hp⟩
+
+-- a waiting `Pop` returns an item pushed LATER by another thread …
+example : (runSched (initial (Stack.create : Stack.Stack Nat) [[.pop], [.push 7]])
+      [.acquire 0, .body 0, .acquire 1, .body 1, .wake 0, .acquire 0, .body 0]).map (fun st => st.threads.map (·.outs))
+    = some [[.val 7], [.done]] := by decide
+-- … after the first `body 0` thread 0 sleeps in `pthread_cond_wait` and the mutex is free
+example : (runSched (initial (Stack.create : Stack.Stack Nat) [[.pop], [.push 7]]) [.acquire 0, .body 0]).map
+      (fun st => (st.threads.map (·.phase), st.lock)) = some ([.waiting, .start], none) := by decide
+-- … or `eslEOD` after `ReleaseCond` (a second `ReleaseCond` is refused with `eslESYS`)
+example : (runSched (initial (Stack.create : Stack.Stack Nat) [[.pop], [.release, .release]])
+      [.acquire 0, .body 0, .acquire 1, .body 1, .wake 0, .acquire 0, .body 0, .acquire 1, .body 1]).map (fun st => st.threads.map (·.outs))
+    = some [[.eod], [.done, .esys]] := by decide
+-- a spurious wake-up changes nothing: the popper re-tests and sleeps again
+example : (runSched (initial (Stack.create : Stack.Stack Nat) [[.pop], [.push 7]]) [.acquire 0, .body 0, .wake 0, .acquire 0, .body 0]).map
+      (fun st => (st.threads.map (·.phase), st.threads.map (·.outs))) = some ([.waiting, .start], [[], []]) := by decide
+-- an action that is not enabled (a second thread taking the held mutex) is refused
+example : (runSched (initial (Stack.create : Stack.Stack Nat) [[.pop], [.push 7]]) [.acquire 0, .acquire 1]).isNone = true := by decide
+end StackThreadsS
 
 /-! ## Index quicksort (`esl_quicksort` with the guard `if (n > 1)`, `partition` as written incl. the no-op first swap) -/
 section QS
